@@ -129,7 +129,7 @@ class C20(MemSpec):
                         'objects are used at their C type']
 
     def closure(self, tier):
-        cases, st = self.closures([('stray', 250 if tier == 'quick' else 100000)])
+        cases, st = self.closures([('stray', 250 if tier == 'quick' else 2500)])
         return matrix() + cases, st
 
     def random_cases(self, tier, seed):
